@@ -1088,6 +1088,18 @@ fn main() {
             let d = db.get_descriptor(raindb::db::DatabaseDescriptor::SSTables).map(|d| format!("{:?}", d)).unwrap_or_default();
             println!("tables={}", d.replace("\\n", " "));
         }
+        // read_sample keyU:seq @level files... : the seek-compaction candidate after up to 300 read samples of the key
+        "read_sample" => {
+            let t = key(a[1]);
+            let lv = levels(&a[2..]);
+            match v::read_sample_scenario(opts(), &lv, t, 300) {
+                Some((n, l)) => {
+                    println!("candidate={}", n);
+                    println!("candidate_level={}", l);
+                }
+                None => println!("candidate=none"),
+            }
+        }
         "vs_recover" => {
             // a database is created, written and closed; a fresh version set recovers from its files
             use raindb::WriteOptions;
